@@ -323,12 +323,18 @@ def c16_r5(ctx):
         elif nm == "WordNode" and c.args and isinstance(c.args[0], ast.Subscript) and isinstance(c.args[0].slice, ast.Slice) \
                 and norm.canon(c.args[0].value) == tag.params[1] and c.args[0].slice.lower is not None and c.args[0].slice.upper is not None:
             spans.append((norm.deep_canon(c.args[0].slice.lower, tag.node), norm.deep_canon(c.args[0].slice.upper, tag.node)))
-    prevn = TA.name("prev") or "prev"
-    want_between = (prevn, "pos")
-    want_tail = (prevn, "len(%s)" % tag.params[1])
-    ctx.ob(tag, len(helpers) <= 1 and want_between in spans and want_tail in spans,
+    # roles from the spans themselves: the trailing span is (P, len(text)); the in-between span is (P, C) with the same P, and C --
+    # the cursor -- is the variable the scanning loop compares with len(text)  (names do not matter: the loop may have been inlined
+    # back from a helper, which renames the cursor apart)
+    tail_txt = "len(%s)" % tag.params[1]
+    tails = [sp for sp in spans if sp[1] == tail_txt]
+    betweens = [sp for sp in spans if sp[1] != tail_txt and sp[1].isidentifier() and sp[0].isidentifier()]
+    loops = [norm.canon(w.test) for w in ast.walk(tag.node) if isinstance(w, ast.While)]
+    posn = betweens[0][1] if betweens else "pos"
+    roles_ok = len(tails) == 1 and len(betweens) == 1 and tails[0][0] == betweens[0][0] and "(%s < %s)" % (posn, tail_txt) in loops
+    ctx.ob(tag, len(helpers) <= 1 and roles_ok,
            "in-between text and trailing text are both turned into word nodes", detail=str(spans))
-    adv = any(isinstance(st, ast.AugAssign) and norm.canon(st.target) == "pos" and isinstance(st.op, ast.Add) and
+    adv = any(isinstance(st, ast.AugAssign) and norm.canon(st.target) == posn and isinstance(st.op, ast.Add) and
               norm.canon(st.value) == "1" for st in ast.walk(tag.node))
     ctx.ob(tag, adv, "the cursor advances by one character when no tagger matches")
     pr = prog.method("qparser.default.QueryParser", "parse", inherited=False)
